@@ -122,7 +122,7 @@ pub fn compile<D: GD>(d: &mut D, src: &str) -> BuildOutcome {
 pub fn short_err(s: &str) -> String {
     let s = s.replace('\n', " ");
     if s.len() > 160 {
-        format!("{}…", &s[..160])
+        format!("{}…", s.chars().take(160).collect::<String>())
     } else {
         s
     }
